@@ -113,3 +113,76 @@ func zzRet[T any](name string) T { panic("spec only") }
 //@ func (*transport).Write
 //@ nosafety nil-deref nil-iface
 //@ waits [gendone] zzRet[*genState]("atomic.Load:gen").genDone
+
+// --- C17 inbound: the assembler's per-block decision (SEMI E4 §9.4) ---
+//
+// deliverFrame, now, timers and notify are function-valued fields: calls through them are abstracted
+// operations named fn:<field>; metrics methods are abstracted operations too.
+
+func zzCalls(name string) int { panic("spec only") }
+
+func specValidFirst(blk block) bool {
+	num := (uint16(blk.header[4])<<8 | uint16(blk.header[5])) & 0x7FFF
+	e := blk.header[4]&0x80 != 0
+	return num == 1 || (num == 0 && e)
+}
+
+func specBlkDev(blk block) uint16 { return (uint16(blk.header[0])<<8 | uint16(blk.header[1])) & 0x7FFF }
+func specBlkNum(blk block) uint16 { return (uint16(blk.header[4])<<8 | uint16(blk.header[5])) & 0x7FFF }
+func specBlkE(blk block) bool     { return blk.header[4]&0x80 != 0 }
+func specBlkR(blk block) bool     { return blk.header[0]&0x80 != 0 }
+
+//@ func (*assembler).reset
+//@ requires a != nil
+//@ modifies a.open, a.header, a.blocks, a.expected, a.lastBlockTime
+//@ ensures [closed] !a.open && a.expected == 0 && len(a.blocks) == 0
+//@ ensures [keeps]  a.haveLast == old(a.haveLast) && a.lastHeader == old(a.lastHeader)
+
+//@ func (*assembler).complete
+//@ nosafety nil-deref nil-iface
+//@ noframe
+//@ requires a != nil
+//@ ensures [closed]  !a.open && len(a.blocks) == 0
+//@ ensures [keeps]   a.haveLast == old(a.haveLast) && a.lastHeader == old(a.lastHeader)
+//@ ensures [deliver] zzCalls("fn:deliverFrame") <= 1
+
+//@ func (*assembler).startMessage
+//@ nosafety nil-deref nil-iface
+//@ noframe
+//@ requires a != nil
+//@ ensures [invalid] !specValidFirst(blk) ==> result == nil && zzCalls("fn:deliverFrame") == 0 && a.open == old(a.open) &&
+//@                   a.haveLast == old(a.haveLast) && a.lastHeader == old(a.lastHeader) && a.expected == old(a.expected)
+//@ ensures [record]  specValidFirst(blk) ==> a.haveLast && a.lastHeader == blk.header
+//@ ensures [single]  specValidFirst(blk) && specBlkE(blk) ==> !a.open
+//@ ensures [multi]   specValidFirst(blk) && !specBlkE(blk) ==> a.open && a.expected == 2 && len(a.blocks) == 1 && result == nil &&
+//@                   zzCalls("fn:deliverFrame") == 0 && a.header == blk.messageHeader()
+//@ ensures [once]    zzCalls("fn:deliverFrame") <= 1 && (zzCalls("fn:deliverFrame") == 1 ==> specBlkE(blk))
+
+//@ func (*assembler).appendBlock
+//@ nosafety nil-deref nil-iface
+//@ noframe
+//@ requires a != nil
+//@ ensures [record] a.haveLast && a.lastHeader == blk.header
+//@ ensures [last]   specBlkE(blk) ==> !a.open
+//@ ensures [more]   !specBlkE(blk) ==> a.open == old(a.open) && a.expected == specBlkNum(blk)+1 && len(a.blocks) == old(len(a.blocks))+1 &&
+//@                  result == nil && zzCalls("fn:deliverFrame") == 0 && a.header == old(a.header)
+//@ ensures [once]   zzCalls("fn:deliverFrame") <= 1 && (zzCalls("fn:deliverFrame") == 1 ==> specBlkE(blk))
+
+//@ func (*assembler).accept
+//@ nosafety nil-deref nil-iface
+//@ noframe
+//@ requires a != nil
+//@ ensures [dev]  specBlkDev(blk) != old(a.deviceID) ==> result == nil && zzCalls("fn:deliverFrame") == 0 && a.open == old(a.open) &&
+//@                a.expected == old(a.expected) && a.haveLast == old(a.haveLast) && a.lastHeader == old(a.lastHeader) && len(a.blocks) == old(len(a.blocks))
+//@ ensures [dir]  specBlkR(blk) == old(a.isEquip) ==> result == nil && zzCalls("fn:deliverFrame") == 0 && a.open == old(a.open) &&
+//@                a.expected == old(a.expected) && a.haveLast == old(a.haveLast) && a.lastHeader == old(a.lastHeader) && len(a.blocks) == old(len(a.blocks))
+//@ ensures [dup]  old(a.haveLast) && blk.header == old(a.lastHeader) ==> result == nil && zzCalls("fn:deliverFrame") == 0 &&
+//@                a.haveLast && a.lastHeader == blk.header
+//@ ensures [once] zzCalls("fn:deliverFrame") <= 1 && (zzCalls("fn:deliverFrame") == 1 ==> specBlkE(blk) && specBlkDev(blk) == old(a.deviceID) &&
+//@                specBlkR(blk) != old(a.isEquip) && !(old(a.haveLast) && blk.header == old(a.lastHeader)))
+//@ ensures [seq]  zzCalls("fn:deliverFrame") == 1 && old(a.open) && zzCalls("secs1.(*ConnectionMetrics).incPartialTimeoutCount") == 0 &&
+//@                zzCalls("secs1.(*ConnectionMetrics).incBlockNumberMismatchCount") == 0 ==> specBlkNum(blk) == old(a.expected) && blk.messageHeader() == old(a.header)
+//@ ensures [first] zzCalls("fn:deliverFrame") == 1 && (!old(a.open) || zzCalls("secs1.(*ConnectionMetrics).incPartialTimeoutCount") == 1 ||
+//@                zzCalls("secs1.(*ConnectionMetrics).incBlockNumberMismatchCount") == 1) ==> specValidFirst(blk)
+//@ ensures [rec]  zzCalls("fn:deliverFrame") == 1 ==> a.haveLast && a.lastHeader == blk.header && !a.open
+//@ ensures [alive] true
